@@ -6,6 +6,11 @@
 #[allow(dead_code, unused_mut, unreachable_code)]
 #[path = "../../sim/src/tracker/mod.rs"]
 mod tracker;
+// Engine R (C19) against the alloc-only decoder: the reader traits are `no_std_io2`'s there, and
+// the tail fetch / caching wrapper are compiled differently
+#[allow(dead_code, unused_mut, unreachable_code)]
+#[path = "../../sim/src/reader.rs"]
+mod reader;
 
 use std::path::PathBuf;
 
@@ -15,6 +20,12 @@ fn main() {
     simcore::install_panic_capture();
     let args: Vec<String> = std::env::args().skip(1).collect();
     match args.first().map(String::as_str) {
+        Some("check") if args.get(1).map(String::as_str) == Some("C19") => {
+            let tier = args.iter().position(|a| a == "--tier").and_then(|i| args.get(i + 1).cloned()).unwrap_or_else(|| "quick".into());
+            simcore::set_deep(tier == "thorough");
+            let cfg = BatchCfg::from_env(&tier, 400_000, 8_000_000, 60.0, 400.0);
+            std::process::exit(run_batch(&reader::ReaderEngine, &cfg).exit_code);
+        }
         Some("check") => {
             let prop: &'static str = match args.get(1).map(String::as_str) {
                 Some("C12") => "C12",
@@ -30,6 +41,9 @@ fn main() {
         Some("replay") => {
             let path = PathBuf::from(args.get(1).cloned().unwrap_or_default());
             let rf = load_replay(&path);
+            if rf.engine == "Ra" {
+                std::process::exit(replay_with(&reader::ReaderEngine, &rf, &path));
+            }
             let prop: &'static str = match rf.engine.as_str() {
                 "T12a" => "C12",
                 "T13a" => "C13",
